@@ -1,6 +1,7 @@
 package corpus
 
 import (
+	"encoding/json"
 	"fmt"
 	"go/ast"
 	"go/scanner"
@@ -237,7 +238,7 @@ var stdQual = map[string]string{
 	"regexp": "regexp", "filepath": "path/filepath", "flag": "flag", "sort": "sort", "time": "time", "unicode": "unicode",
 	"utf8": "unicode/utf8", "draw": "image/draw", "image": "image", "os": "os", "io": "io", "ioutil": "io/ioutil", "sync": "sync",
 	"atomic": "sync/atomic", "math": "math", "errors": "errors", "reflect": "reflect", "context": "context", "sql": "database/sql",
-	"path": "path", "log": "log", "strconv": "strconv", "url": "net/url", "json": "encoding/json", "rand": "math/rand",
+	"path": "path", "log": "log", "slices": "slices", "maps": "maps", "cmp": "cmp", "strconv": "strconv", "url": "net/url", "json": "encoding/json", "rand": "math/rand",
 }
 
 var (
@@ -251,6 +252,12 @@ var (
 	reStrLit     = regexp.MustCompile("`[^`]*`|\"(?:[^\"\\\\]|\\\\.)*\"")
 )
 
+// SubjectInventoryFile is the committed semantic-precondition inventory: rule group -> API functions its patterns and
+// messages named when the inventory was taken (VERIF_WRITE_SUBJECTS=1 vh c20 ... rewrites it from the current rules.go).
+func SubjectInventoryFile() string {
+	return filepath.Join(VerifRoot(), "corpus", "c20_subject_inventory.json")
+}
+
 // RuleSubjects derives, for every embedded rule group, the builtin / std functions spelled in its
 // Match patterns (read from the repository's rules.go on every run).
 func RuleSubjects() map[string][]Subject {
@@ -261,6 +268,10 @@ func RuleSubjects() map[string][]Subject {
 			return
 		}
 		src := string(data)
+		inventory := map[string][]Subject{}
+		if inv, err := os.ReadFile(SubjectInventoryFile()); err == nil {
+			json.Unmarshal(inv, &inventory)
+		}
 		locs := reFuncDecl.FindAllStringSubmatchIndex(src, -1)
 		for i, loc := range locs {
 			name := src[loc[2]:loc[3]]
@@ -292,10 +303,18 @@ func RuleSubjects() map[string][]Subject {
 					}
 				}
 			}
+			for _, s := range inventory[name] { // committed inventory (survives edits that drop the textual mention)
+				seen[s] = true
+			}
 			for s := range seen {
 				ruleSubjects[name] = append(ruleSubjects[name], s)
 			}
 			sort.Slice(ruleSubjects[name], func(a, b int) bool { return ruleSubjects[name][a].Spelling() < ruleSubjects[name][b].Spelling() })
+		}
+		if os.Getenv("VERIF_WRITE_SUBJECTS") != "" {
+			if data, err := json.MarshalIndent(ruleSubjects, "", " "); err == nil {
+				os.WriteFile(SubjectInventoryFile(), data, 0o644)
+			}
 		}
 	})
 	return ruleSubjects
@@ -426,6 +445,18 @@ func calleeSpelling(fun ast.Expr) (string, *ast.Ident, *ast.Ident) {
 		if q, ok := x.X.(*ast.Ident); ok {
 			return q.Name + "." + x.Sel.Name, q, x.Sel
 		}
+		// a selector chain rooted at an identifier: flag.CommandLine.Bool is spelled like flag.Bool
+		root := x.X
+		for {
+			if s, ok := root.(*ast.SelectorExpr); ok {
+				root = s.X
+				continue
+			}
+			break
+		}
+		if q, ok := root.(*ast.Ident); ok {
+			return q.Name + "." + x.Sel.Name, q, x.Sel
+		}
 	}
 	return "", nil, nil
 }
@@ -500,7 +531,7 @@ func CheckC20(p *Pkg, f *File, checker string, d Diag) *C20Finding {
 		if _, hand := handSubjects[checker]; hand {
 			return checkMethodSubject(p, f, subs, d)
 		}
-		return nil
+		return checkAnyQualifier(p, f, subs, d)
 	}
 	sp, qual, name := calleeSpelling(call.Fun)
 	sub := bySpelling[sp]
@@ -584,6 +615,55 @@ func checkMethodSubject(p *Pkg, f *File, subs []Subject, d Diag) *C20Finding {
 		recv = " on a value of type " + t.String()
 	}
 	return &C20Finding{Subject: byName[sel.Sel.Name][0].Family(), Spelled: types.ExprString(sel), Resolves: describeObj(obj) + recv}
+}
+
+// checkAnyQualifier (rule groups): the diagnostic sits at / inside a call q.Name(...) where q is SOME imported package
+// and Name is one of the group's subject functions: then (import path of q, Name) must be one of the subjects.
+func checkAnyQualifier(p *Pkg, f *File, subs []Subject, d Diag) *C20Finding {
+	names := map[string]bool{}
+	real := map[[2]string]bool{}
+	for _, s := range subs {
+		if s.Pkg != "" {
+			names[s.Name] = true
+			real[[2]string{s.Pkg, s.Name}] = true
+		}
+	}
+	if len(names) == 0 {
+		return nil
+	}
+	var found *C20Finding
+	var best *ast.CallExpr
+	var bestPkg *types.PkgName
+	var bestSel *ast.SelectorExpr
+	ast.Inspect(f.AST, func(n ast.Node) bool {
+		if n == nil {
+			return false
+		}
+		if _, isFile := n.(*ast.File); !isFile && (n.Pos() > d.Pos || n.End() <= d.Pos) {
+			return false
+		}
+		if c, ok := n.(*ast.CallExpr); ok {
+			if sel, ok := c.Fun.(*ast.SelectorExpr); ok && names[sel.Sel.Name] {
+				if q, ok := sel.X.(*ast.Ident); ok {
+					if pn, ok := p.Info.Uses[q].(*types.PkgName); ok {
+						best, bestPkg, bestSel = c, pn, sel
+					}
+				}
+			}
+		}
+		return true
+	})
+	if best != nil && !real[[2]string{bestPkg.Imported().Path(), bestSel.Sel.Name}] {
+		want := ""
+		for _, s := range subs {
+			if s.Name == bestSel.Sel.Name && s.Pkg != "" {
+				want = s.Spelling()
+				break
+			}
+		}
+		found = &C20Finding{Subject: want, Spelled: types.ExprString(bestSel), Resolves: describeObj(bestPkg) + " ." + bestSel.Sel.Name}
+	}
+	return found
 }
 
 // checkNilSubject: nilValReturn's subject is the identifier spelled nil in the condition `x == nil` of the
